@@ -295,14 +295,15 @@ class MapDecoder:
                 out = set()
                 for c in st:
                     if c[0] == "text":
-                        if "Text" in vs:
-                            out.add(c)
+                        ok = "Text" in vs
                     elif c[0] == "private":
-                        if "PrivateUse" in vs or "Int" in vs:
-                            out.add(c)
-                    else:
-                        if "Int" in vs or "Assigned" in vs or (c[0] == "other-int" and "PrivateUse" in vs):
-                            out.add(c)
+                        ok = "PrivateUse" in vs
+                    elif c[0] == "other-assigned":
+                        ok = "Assigned" in vs
+                    else:   # ('int', k) and 'other-int'
+                        ok = "Int" in vs or "Assigned" in vs
+                    if ok:
+                        out.add(c)
                 return out
             return f
         if t["ty"] == "bool" and is_call(subj) and subj[1].endswith("::eq"):
@@ -350,7 +351,10 @@ class MapDecoder:
         header, body = self.loop
         ks = self._listed_labels()
         self.listed = ks
-        universe = {("int", k) for k in ks} | {("other-int",), ("text",)}
+        if "RegisteredLabelWithPrivate" in (self.label_decoder or ""):
+            universe = {("int", k) for k in ks} | {("other-assigned",), ("private",), ("text",)}
+        else:
+            universe = {("int", k) for k in ks} | {("other-int",), ("text",)}
         self.universe = universe
         start = fn.blocks[self.label_bb]["term"]["target"]
         state = {start: set(universe)}
@@ -388,7 +392,7 @@ class MapDecoder:
         rest = sorted(c[0] for c in cls if c[0] != "int")
         if ints and not rest:
             return ",".join(str(i) for i in ints)
-        if not ints and set(rest) == {"other-int", "text"}:
+        if not ints and set(rest) == {c[0] for c in self.universe if c[0] != "int"}:
             return "default"
         return ",".join([str(i) for i in ints] + rest)
 
